@@ -150,27 +150,6 @@ theorem eWfB_sound (sc : Scope) : ∀ e, eWfB sc.types sc.slots e = true → EWf
     simp only [eWfB] at h
     simp only [EWf, Spec.ExprTyped]; exact eWfB_sound sc e h
 
-theorem canStoreB_sound (st tt : ETy) (h : canStoreB st tt = true) : CanStore st tt := by
-  simp only [canStoreB, Bool.or_eq_true, decide_eq_true_eq] at h
-  rcases h with h | h
-  · exact Or.inl h
-  · refine Or.inr ?_
-    cases tt with
-    | sc t =>
-      cases hs : RecL.Ref.ETy.asTy st with
-      | none => simp [hs] at h
-      | some s =>
-        simp only [hs] at h ⊢
-        simp only [beq_iff_eq, decide_eq_decide] at h
-        exact h
-    | fix n =>
-      cases hs : RecL.Ref.ETy.asTy st with
-      | none => simp [hs] at h
-      | some s =>
-        simp only [hs, decide_eq_true_eq] at h ⊢
-        exact h
-    | udt k => simp at h
-
 theorem numTyB_sound (t : ETy) (h : numTyB t = true) : NumTy t := by
   cases t with
   | sc q => simp only [numTyB, decide_eq_true_eq] at h; exact ⟨q, rfl, h⟩
@@ -244,7 +223,7 @@ theorem wfB_sound (sc : Scope) : ∀ s, wfB sc.types sc.slots s = true → Wf sc
     exact h
   | .assign x path t e _, h => by
     simp only [wfB, Bool.and_eq_true] at h
-    exact ⟨pathTypedB_sound _ _ x path t h.1.1, eWfB_sound sc e h.1.2, canStoreB_sound _ _ h.2⟩
+    exact ⟨pathTypedB_sound _ _ x path t h.1, eWfB_sound sc e h.2⟩
   | .print items _, h => by
     simp only [wfB] at h
     exact itemsWfB_sound sc items h
